@@ -191,16 +191,24 @@ for m_, sig_ in (("_delete_statement", {"chromosome": "TestCaseChromosome", "idx
                  ("_mutation_delete", {"chromosome": "TestCaseChromosome"}),
                  ("_mutation_change", {"chromosome": "TestCaseChromosome"}),
                  ("_mutation_insert", {"chromosome": "TestCaseChromosome"})):
+    # (the insertion mutation may put a clone taken before an over-long insertion back: a fresh test case with the old content)
+    swaps_ = m_ == "_mutation_insert"
     contract(f"{OP}.mutation:TestCaseMutation.{m_}", sig=sig_, returns="bool", globals_in=MUTG,
-             modifies=[GC], raises={"AssertionError": "chromosome._test_factory is None"},
-             ensures=[f"implies(not result, {SAME})"])
+             modifies=[GC] + (["chromosome._test_case"] if swaps_ else []), raises={"AssertionError": "chromosome._test_factory is None"},
+             ensures=[f"implies(not result, {SAME})"] +
+                     (["chromosome._test_case is old(chromosome._test_case) or fresh_ref(chromosome._test_case)"] if swaps_ else []))
     # the chromosome's own trampolines to the module-level operator object
     sig2 = {("self" if k == "chromosome" else k): v for k, v in sig_.items()}
     contract(f"{TCC}.{m_}", sig={k: v for k, v in sig2.items() if k != "self"}, returns="bool", globals_in=MUTG,
-             modifies=["self._test_case.g_code"], raises={"AssertionError": "self._test_factory is None"},
-             ensures=["implies(not result, self._test_case.g_code == old(self._test_case.g_code))"])
+             modifies=["self._test_case.g_code"] + (["self._test_case"] if swaps_ else []),
+             raises={"AssertionError": "self._test_factory is None"},
+             ensures=["implies(not result, self._test_case.g_code == old(self._test_case.g_code))"] +
+                     (["self._test_case is old(self._test_case) or fresh_ref(self._test_case)"] if swaps_ else []))
 for m_ in ("_mutation_delete", "_mutation_change", "_mutation_insert"):
-    loop(f"{OP}.mutation:TestCaseMutation.{m_}", 0, invariant=[f"changed or {SAME}"], modifies=[GC])
+    loop(f"{OP}.mutation:TestCaseMutation.{m_}", 0,
+         invariant=[f"changed or {SAME}"] + (["chromosome._test_case is old(chromosome._test_case) or fresh_ref(chromosome._test_case)"]
+                                             if m_ == "_mutation_insert" else []),
+         modifies=[GC] + (["chromosome._test_case"] if m_ == "_mutation_insert" else []))
 contract(f"{OP}.mutation:TestCaseMutation.mutate", sig={"chromosome": "TestCaseChromosome"}, globals_in=MUTG,
          modifies=["chromosome._test_case", GC, "chromosome.changed", "chromosome._num_mutations"],
          raises={"AssertionError": "chromosome._test_factory is None"},
